@@ -18,6 +18,13 @@ func init() {
 }
 
 func c17(c *Ctx) {
+	{
+		psField := `encoding/binary\.\(bigEndian\)\.Uint16\(encoding/binary\.BigEndian, .*\[16:\]\)`
+		one := `^\(1 == ` + psField + `\)$`
+		c.noPrematureTest("dbheader/page-size-normalised-before-judged", "litefs.readSQLiteDatabaseHeader", `(`+psField+`|\.PageSize)`, gs(G(one, true), G(one, false)),
+			"no test of the page-size field other than 'is it the encoding 1' is made before the encoding 1 has been turned into 65536", "a 64 KiB-page database would be taken for an invalid file at start-up, and an invalid database file is wiped together with its journal, WAL and LTX files", one)
+		c.Expect("dbheader/page-size-one-means-64k", joinS(c.fieldStores("litefs.readSQLiteDatabaseHeader", "litefs.sqliteDatabaseHeader.PageSize")), pat("encoding/binary.(bigEndian).Uint16(encoding/binary.BigEndian, @@[16:]);65536")+"|"+pat("65536;encoding/binary.(bigEndian).Uint16(encoding/binary.BigEndian, @@[16:])"), "the page size stored is the field, or 65536 for the encoding 1", "")
+	}
 	c.pageLoopsComplete("complete", "rollbackJournalSegment")
 	c.lockPgnoGuards("lockpgno")
 	{
@@ -254,4 +261,13 @@ func c17(c *Ctx) {
 func (c *Ctx) dominatedBy(fn *ssa.Function, at ssa.Instruction, g *Guard) bool {
 	s := &Search{P: c.P, Fn: fn, Block: c.P.EdgesAsserting(g), Tgt: func(in ssa.Instruction) bool { return in == at }}
 	return s.Run() == nil
+}
+
+// fieldStores renders the values stored into the named field by fname, in source order.
+func (c *Ctx) fieldStores(fname, field string) []string {
+	var out []string
+	for _, in := range Instrs(c.F(fname), c.P.Writes(field)) {
+		out = append(out, fieldStoreVal(c.P, in))
+	}
+	return out
 }
